@@ -379,6 +379,11 @@ func runC04(c *core.Ctx) {
 						if len(calls(p)) != 0 {
 							ok, why = false, "invocation after the loop"
 						}
+						// the walk ends only when the list is exhausted: a path that has looked at an entry and then
+						// leaves the loop stops short (the entries behind a nil one are never applied)
+						if polarity(p, nilAtom) != 0 {
+							ok, why = false, "the walk leaves the loop after having looked at an entry: the isomorphisms behind it are never applied"
+						}
 						continue
 					}
 					isNil := polarity(p, nilAtom)
